@@ -290,3 +290,24 @@ pub(crate) fn verify_nonexistence<TC: Configuration>(
     verify_nonmembership::<TC>(root_hash, nonmembership_proof)?;
     Ok(())
 }
+
+/// Verification hook (compiled only with `--cfg akd_verif`): the module-private
+/// `verify_label`, as the verifiers call it.
+#[cfg(akd_verif)]
+pub fn verif_verify_label<TC: Configuration>(
+    vrf_public_key: &[u8],
+    akd_label: &AkdLabel,
+    freshness: VersionFreshness,
+    version: u64,
+    vrf_proof: &[u8],
+    node_label: NodeLabel,
+) -> Result<(), VerificationError> {
+    verify_label::<TC>(
+        vrf_public_key,
+        akd_label,
+        freshness,
+        version,
+        vrf_proof,
+        node_label,
+    )
+}
